@@ -97,7 +97,8 @@ def parse_output(out):
         full = name_line.strip().rstrip(".")
         name = full.split("::")[-1]
         h = {"name": name, "full": full, "failed_checks": [], "undetermined": [], "checks": 0, "covers": None, "status": "unknown"}
-        for m in re.finditer(r"Check \d+: ([^\n]+)\n\s*- Status: (\w+)\n\s*- Description: \"(.*)\"\n(?:\s*- Location: (.*)\n)?", rest):
+        # (a description may span several lines: rustfmt wraps long assert! expressions and the text is quoted verbatim)
+        for m in re.finditer(r"Check \d+: ([^\n]+)\n\s*- Status: (\w+)\n\s*- Description: \"(.*?)\"\n(?:\s*- Location: ([^\n]*)\n)?", rest, re.S):
             cid, st, desc, locn = m.group(1), m.group(2), m.group(3), m.group(4)
             if ".cover." in cid:
                 continue
